@@ -42,10 +42,24 @@ func plusOver(g *gen.G, metas []gen.MetaVar) (string, string) {
 		}
 	}
 	r.Shuffle(len(uses), func(i, j int) { uses[i], uses[j] = uses[j], uses[i] })
-	shape := r.Intn(8)
+	shape := r.Intn(10)
 	var s string
 	args := strings.Join(uses, ", ")
+	// keyed elements: metavariables as keys and as values
+	var keyed []string
+	for i := 0; i+1 < len(uses); i += 2 {
+		keyed = append(keyed, uses[i]+": "+uses[i+1])
+	}
+	if len(uses)%2 == 1 {
+		keyed = append(keyed, "Last: "+uses[len(uses)-1])
+	}
 	switch shape {
+	case 8:
+		// a keyed literal of a named type: whether its keys are field names or map keys, syntax does not tell
+		s = "repl.Header{" + strings.Join(keyed, ", ") + "}"
+	case 9:
+		// ... and with an elided element type
+		s = "map[string]Counts{\"a\": {" + strings.Join(keyed, ", ") + "}}"
 	case 0:
 		s = "repl(" + args + ")"
 	case 1:
